@@ -46,7 +46,7 @@ def runPassK {α} (step : St α → UpdK α → St α × List (Write α)) : List
 def runBatchK {α} (D : Dom α) (expired : Bool) (ex : Nat → Bool) (levels : List (List (UpdK α))) (s : St α) :
     St α × List (Write α) :=
   let r1 := runPassK (stepK1 D expired ex) levels.flatten { s with skip := [] }
-  let r2 := runPassK (stepK2 D expired ex) levels.reverse.flatten r1.1
+  let r2 := runPassK (stepK2 D expired ex) (sweep2 levels) r1.1
   (r2.1, r1.2 ++ r2.2)
 
 end KoordVerif.C12
